@@ -15,6 +15,9 @@ sub = _load('u_sub')
 F_NFA, F_MP, F_PAT = nfa.F_NFA, sub.F_MP, 'scnr/src/pattern.rs'
 P = ['C02']
 HERE = os.path.dirname(os.path.abspath(__file__))
+F_ERR = 'scnr/src/errors.rs'
+OPAQUE_ERR = '#[verifier::external_body] pub struct ScnrError { _private: () }'
+DEFAULT_FEATURES = ('scnr_unicode', 'dot_writer', 'serde')  # scnr/Cargo.toml [features] default
 
 # everything U-nfa defines; its proved functions are used through their contracts only
 BASE = []
@@ -25,6 +28,20 @@ for it in nfa.UNIT['items']:
         continue
     elif isinstance(it, RawFile):
         BASE.append(RawFile(os.path.join(HERE, '..', 'u_nfa', it.path) if not os.path.isabs(it.path) else it.path, it.label))
+    elif isinstance(it, Raw) and OPAQUE_ERR in it.text:
+        # in this unit the error type is the real one (extracted from errors.rs): the error arm of try_from_patterns is verified, not cut
+        BASE.append(Raw(it.text.replace(OPAQUE_ERR, ''), it.label))
+        BASE.append(Raw('''
+#[verifier::external_type_specification] #[verifier::external_body] pub struct ExAstError(regex_syntax::ast::Error);
+#[verifier::external_type_specification] #[verifier::external_body] pub struct ExIoError(std::io::Error);
+pub assume_specification<T: ?Sized + core::marker::MetaSized, A: std::alloc::Allocator>[ <std::boxed::Box<T, A> as std::convert::AsRef<T>>::as_ref ](b: &std::boxed::Box<T, A>) -> (r: &T)
+    ensures r == &**b;
+pub assume_specification[ <regex_syntax::ast::Error as Clone>::clone ](e: &regex_syntax::ast::Error) -> (r: regex_syntax::ast::Error)
+    ensures r == *e;
+''', label='regex_syntax::ast::Error, std::io::Error (opaque, imported)'))
+        BASE.append(Enum(F_ERR, 'ScnrErrorKind', strip_attrs=True, default_features=DEFAULT_FEATURES))
+        BASE.append(Struct(F_ERR, 'ScnrError', derive=[]))
+        BASE.append(Fn(F_ERR, 'ScnrError', 'new', ret='r', props=['C15', 'C02'], spec='ensures *r.source == kind'))
     else:
         BASE.append(it)
 
@@ -141,8 +158,11 @@ while __i < patterns.len()
     }
 ''', why='`for (i, x) in v.iter().enumerate() { B }` written as the index loop `let mut k = 0; while k < v.len() { let i = k; let x = &v[k]; k += 1; B }` (same elements, same order); loop body kept verbatim'),
         Replace('E5', 'super::parse_regex_syntax($x)', 'parse_regex_syntax($x)', why='path prefix dropped (single-file unit)'),
-        Replace('U4', 'Err(ScnrError { ref source }) => match source.as_ref() { $arms },', 'Err(__e) => { return Err(verif_pattern_error(__e)); }',
-                why='TRUSTED CUT: the four inner arms only rebuild the error with the pattern index in its message (format!) and return it through `Err(..)?`; replaced by returning an opaque error. That every inner arm returns Err is NOT verified.'),
+        # the error arm is VERIFIED (every inner arm leaves the function with Err: an error of a pattern is never swallowed); only the message texts are cut
+        Replace('U4', 'format!("Error in pattern #{} \'{}\'", index, pattern)', 'verif_error_text()',
+                why='TRUSTED CUT (narrowed): construction of the message text (format! with the Display of Pattern); the value it is stored in and the control flow around it are verified'),
+        Replace('U4+E7', 'unsupported!(format!($args))', 'ScnrError::new(ScnrErrorKind::UnsupportedFeature(verif_error_text()))',
+                why='`unsupported!(X)` expanded from its macro body in nfa.rs (`ScnrError::new($crate::ScnrErrorKind::UnsupportedFeature(X.to_string()))`); X = format!(..) is the trusted message text (a String, `to_string` of a String is a copy)'),
         Ins('after', 'Ok(mut nfa) => {', '''
 let ghost v0 = nfa_view(nfa);
 proof {
@@ -228,7 +248,9 @@ items += [
 #[verifier::external_body] pub fn parse_regex_syntax(input: &str) -> (r: Result<Ast>)
     ensures r matches Ok(a) ==> a == spec_parse(input@)
 { unimplemented!() }
-#[verifier::external_body] pub fn verif_pattern_error(e: ScnrError) -> ScnrError { unimplemented!() }
+#[verifier::external_body] pub fn verif_error_text() -> String { unimplemented!() }
+// the real Nfa derives Debug (dropped by rule E4); `Result<Nfa, _>::unwrap_err` needs the bound, the impl is never called on a path under contract
+#[verifier::external] impl std::fmt::Debug for Nfa { fn fmt(&self, f: &mut std::fmt::Formatter<'_>) -> std::fmt::Result { Ok(()) } }
 // derived Ord of the id newtype is the order of the wrapped integer (rule E4)
 pub broadcast axiom fn axiom_stateid_ord(a: StateID, b: StateID)
     ensures StateID::obeys_cmp_spec(), #[trigger] a.cmp_spec(&b) == a.0.cmp_spec(&b.0);
